@@ -322,20 +322,6 @@ func plans() []plan {
 			}
 		}
 	}
-	if th {
-		// four callers (thorough only): preemption-bounded for the stream targeters, all interleavings for the static one
-		for _, kind := range []string{"http", "json"} {
-			for _, targets := range []int{2, 3, 4} {
-				ps = append(ps, plan{params{Kind: kind, Targets: targets, Callers: 4}, 3})
-			}
-			ps = append(ps, plan{params{Kind: kind, Targets: 3, Callers: 4, UP: true}, 2})
-		}
-		for _, targets := range []int{2, 3} {
-			for _, draws := range []int{1, 2} {
-				ps = append(ps, plan{params{Kind: "static", Targets: targets, Callers: 4, Draws: draws}, -1})
-			}
-		}
-	}
 	// callers that decode into one Target variable again and again (http and static overwrite it entirely)
 	ps = append(ps, plan{params{Kind: "http", Targets: 3, Callers: 2, Reuse: true}, -1}, plan{params{Kind: "http", Targets: 2, Callers: 1, Reuse: true}, -1},
 		plan{params{Kind: "static", Targets: 2, Callers: 2, Draws: 3, Reuse: true}, -1})
